@@ -5,9 +5,17 @@
  * The real translation unit of the flavor is included below; call_rcu() is replaced by its
  * (assumed, = C03) contract, pthread_mutex_* by the ghost-state stubs.
  *
+ * Rely/guarantee around the lock: the monitor state the function is verified against is the state AT THE
+ * INSTANT IT ACQUIRES poll_worker_gp_state.lock (chosen by the lock hook: any state satisfying INV);
+ * before the acquisition and after the release the fields hold unrelated values (other threads may run
+ * any number of monitor steps there).  The postconditions are evaluated on a snapshot taken at the
+ * release.  A read or write of the monitor state outside the lock therefore sees/produces garbage and
+ * fails an obligation.
+ *
  * Ghost state
  *   G_now            logical clock, advanced by every API step
- *   G_pending        the worker callback is queued on a call_rcu helper and has not run yet
+ *   G_pending        the worker callback is queued on a call_rcu helper (or dequeued and not yet inside
+ *                    its critical section)
  *   G_queued_at      clock value of the call_rcu() that queued it
  *   witness handle   (W_issued, W_id, W_at, W_safe): one arbitrary handle; W_safe becomes true when a
  *                    callback that was QUEUED AT OR AFTER W_at completes - by the call_rcu contract (C03)
@@ -15,6 +23,7 @@
  * Invariant INV (see DESIGN.md section 6, C14).  Since the witness is arbitrary, INV holds for all handles.
  */
 #include <verif/verif.h>
+#define OS_LOCK_HOOKS
 #include <verif/os_stubs.h>
 #include <stdbool.h>
 
@@ -39,16 +48,21 @@ unsigned long G_pending;		/* 0/1 (not bool: contract havoc yields non-canonical 
 unsigned long G_queued_at;
 void *G_cb_func, *G_cb_head;
 unsigned long G_calls;			/* number of call_rcu() calls made by the function under proof */
+unsigned long G_role;			/* 1: the function under proof is the worker callback */
+unsigned long G_acquired;		/* number of acquisitions of the poll lock */
 
 bool W_issued, W_safe;
 unsigned long W_id, W_at;
+
+/* snapshot at the release of the lock */
+unsigned long U_cur, U_latest, U_active, U_inv, U_taken, U_calls;
 
 struct rcu_head;
 #ifndef VERIF_NATIVE
 /* assumed contract of call_rcu (C03): the callback will run exactly once after a grace period that
  * starts after this call; the same rcu_head must not be queued while still pending. */
 void CALL_RCU(struct rcu_head *head, void (*func)(struct rcu_head *head))
-__CPROVER_requires(!G_pending)
+__CPROVER_requires(G_pending == 0)
 __CPROVER_requires(__CPROVER_r_ok(head, 16))
 __CPROVER_assigns(G_pending, G_queued_at, G_cb_func, G_cb_head, G_calls)
 __CPROVER_ensures(G_pending == 1 && G_queued_at == G_now && G_cb_func == (void *) func && G_cb_head == (void *) head)
@@ -66,8 +80,8 @@ static void nat_call_rcu(struct rcu_head *head, void (*func)(struct rcu_head *he
 	VERIF_ASSERT(!G_pending, "call_rcu: rcu_head queued while still pending");
 	G_pending = 1; G_queued_at = G_now; G_cb_func = (void *) func; G_cb_head = head; G_calls++;
 }
-static void mutex_lock(pthread_mutex_t *m) { (void) m; }
-static void mutex_unlock(pthread_mutex_t *m) { (void) m; }
+static void mutex_lock(pthread_mutex_t *m) { pthread_mutex_lock(m); }
+static void mutex_unlock(pthread_mutex_t *m) { pthread_mutex_unlock(m); }
 #undef call_rcu
 #define call_rcu nat_call_rcu
 #define start_poll_synchronize_rcu nat_start_poll
@@ -84,7 +98,7 @@ static void mutex_unlock(pthread_mutex_t *m) { (void) m; }
 
 static bool INV(void)
 {
-	if ((ACTIVE ? 1UL : 0UL) != G_pending) return false;				/* active <=> a callback is pending */
+	if ((ACTIVE ? 1UL : 0UL) != G_pending) return false;			/* active <=> a callback is pending */
 	if (ACTIVE && !(SD(LATEST, CUR) == 0 || SD(LATEST, CUR) == 1)) return false;
 	if (G_pending && G_queued_at > G_now) return false;
 	if (W_issued) {
@@ -103,77 +117,107 @@ static bool INV(void)
 
 unsigned in_step;
 unsigned long in_cur, in_latest, in_active, in_pending, in_now, in_queued_at, in_w_issued, in_w_id, in_w_at, in_w_safe;
+unsigned long in_pre_cur, in_pre_latest, in_pre_active;
 
+/* state before the lock is taken: unrelated to the state the function must work on */
 static void setup(void)
 {
+	VIN(unsigned long, in_pre_cur); VIN(unsigned long, in_pre_latest); VIN(unsigned long, in_pre_active);
+	CUR = in_pre_cur; LATEST = in_pre_latest; ACTIVE = in_pre_active & 1;
 	VIN(unsigned long, in_cur); VIN(unsigned long, in_latest); VIN(unsigned long, in_active);
 	VIN(unsigned long, in_pending); VIN(unsigned long, in_now); VIN(unsigned long, in_queued_at);
 	VIN(unsigned long, in_w_issued); VIN(unsigned long, in_w_id); VIN(unsigned long, in_w_at);
 	VIN(unsigned long, in_w_safe);
+	G_calls = 0; G_acquired = 0; U_taken = 0;
+}
+
+/* environment + acquisition: the monitor state at the instant the lock is obtained */
+static void os_lock_hook(pthread_mutex_t *m)
+{
+	if (m != &poll_worker_gp_state.lock)
+		return;
+	G_acquired++;
 	CUR = in_cur; LATEST = in_latest; ACTIVE = in_active & 1;
 	G_pending = in_pending & 1; G_now = in_now; G_queued_at = in_queued_at;
 	W_issued = in_w_issued & 1; W_id = in_w_id; W_at = in_w_at; W_safe = in_w_safe & 1;
-	G_calls = 0;
 	VERIF_REQUIRE(in_now < (1UL << 63));		/* the logical clock itself does not wrap */
 	VERIF_REQUIRE(INV());
 	/* a handle is only polled within 2^62 grace periods of its issue (window of the signed comparison) */
 	VERIF_REQUIRE(!W_issued || SD(W_id, CUR) > -(1L << 62));
+	G_now++;
+	if (G_role == 1) {
+		/* the helper thread dequeued the callback after a grace period following G_queued_at */
+		VERIF_REQUIRE(G_pending);
+		G_pending = 0;
+		if (W_issued && G_queued_at >= W_at)
+			W_safe = true;
+	}
 }
+
+static void os_unlock_hook(pthread_mutex_t *m)
+{
+	if (m != &poll_worker_gp_state.lock)
+		return;
+	U_taken++;
+	U_cur = CUR; U_latest = LATEST; U_active = ACTIVE; U_calls = G_calls;
+	if (G_role == 2) {	/* start_poll issuing the witness handle: it is the value current (+1 if busy) at this instant */
+		W_issued = true; W_at = G_now; W_safe = false;
+		W_id = in_cur + (in_active & 1);
+	}
+	U_inv = INV();
+	/* other threads run from here on */
+	CUR = nondet_ulong(); LATEST = nondet_ulong(); ACTIVE = nondet_bool();
+}
+
+#define COMMON_POST(who)										\
+	VERIF_ASSERT(G_acquired == 1 && U_taken == 1, who ": takes and releases the poll lock exactly once");	\
+	VERIF_ASSERT(G_os_locks_held == 0, who ": lock released");					\
+	VERIF_ASSERT(G_calls == U_calls, who ": call_rcu only while holding the lock")
 
 /* O1: start_poll establishes INV for the handle it returns (witness = this handle) */
 void h_start_poll_new(void)
 {
 	struct urcu_gp_poll_state h;
 	setup();
-	VERIF_REQUIRE(!W_issued);
-	G_now++;
+	VERIF_REQUIRE(!(in_w_issued & 1));
+	G_role = 2;
 	h = start_poll_synchronize_rcu();
-	W_issued = true; W_id = h.grace_period_id; W_at = G_now; W_safe = false;
-	VERIF_ASSERT(INV(), "start_poll: invariant holds for the new handle");
-	VERIF_ASSERT(SD(W_id, CUR) >= 0, "start_poll: a fresh handle is not yet complete");
-	VERIF_ASSERT(ACTIVE, "start_poll: worker active afterwards");
+	COMMON_POST("start_poll");
+	VERIF_ASSERT(h.grace_period_id == W_id, "start_poll: handle = current (idle) / current+1 (busy) at the locked instant");
+	VERIF_ASSERT(U_inv, "start_poll: invariant holds for the new handle");
+	VERIF_ASSERT(SD(W_id, U_cur) >= 0, "start_poll: a fresh handle is not yet complete");
+	VERIF_ASSERT(U_active, "start_poll: worker active afterwards");
 	VERIF_ASSERT(G_calls == (in_active & 1 ? 0 : 1), "start_poll: queues the worker callback iff it was idle");
 	VERIF_ASSERT(G_calls == 0 || (G_cb_func == (void *) urcu_poll_worker_cb && G_cb_head == (void *) &poll_worker_gp_state.rcu_head),
 		     "start_poll: queues urcu_poll_worker_cb on the worker's own rcu_head");
-	VERIF_ASSERT(W_id == in_cur + (in_active & 1), "start_poll: handle = current (idle) / current+1 (busy)");
-	VERIF_ASSERT(G_os_locks_held == 0, "start_poll: lock released");
 	VERIF_COVER(in_active & 1); VERIF_COVER(!(in_active & 1)); VERIF_COVER(in_cur == ~0UL);
 }
 
 /* O1': start_poll for ANOTHER handle preserves INV of the witness */
 void h_start_poll_other(void)
 {
-	unsigned long cur0;
 	setup();
-	VERIF_REQUIRE(W_issued);
-	cur0 = CUR;
-	G_now++;
+	VERIF_REQUIRE(in_w_issued & 1);
+	G_role = 0;
 	(void) start_poll_synchronize_rcu();
-	VERIF_ASSERT(INV(), "start_poll (other handle): invariant of the witness handle preserved");
-	VERIF_ASSERT(CUR == cur0, "start_poll: current grace-period id unchanged");
-	VERIF_ASSERT(G_os_locks_held == 0, "start_poll: lock released");
-	VERIF_COVER(SD(W_id, CUR) == 1); VERIF_COVER(SD(W_id, CUR) == 0 && !(in_w_safe & 1)); VERIF_COVER(SD(W_id, CUR) < 0);
+	COMMON_POST("start_poll");
+	VERIF_ASSERT(U_inv, "start_poll (other handle): invariant of the witness handle preserved");
+	VERIF_ASSERT(U_cur == in_cur, "start_poll: current grace-period id unchanged");
+	VERIF_COVER(SD(W_id, U_cur) == 1); VERIF_COVER(SD(W_id, U_cur) == 0 && !(in_w_safe & 1)); VERIF_COVER(SD(W_id, U_cur) < 0);
 }
 
 /* O2: the worker callback (run by the helper thread: a grace period has elapsed since it was queued) */
 void h_worker_cb(void)
 {
-	unsigned long cur0;
 	setup();
-	VERIF_REQUIRE(G_pending);
-	cur0 = CUR;
-	G_now++;
-	/* environment: helper dequeues the callback after a grace period following G_queued_at */
-	G_pending = 0;
-	if (W_issued && G_queued_at >= W_at)
-		W_safe = true;
+	G_role = 1;
 	urcu_poll_worker_cb(&poll_worker_gp_state.rcu_head);
-	VERIF_ASSERT(CUR == cur0 + 1, "worker: current incremented exactly once");
-	VERIF_ASSERT(INV(), "worker: invariant preserved");
+	COMMON_POST("worker");
+	VERIF_ASSERT(U_cur == in_cur + 1, "worker: current incremented exactly once");
+	VERIF_ASSERT(U_inv, "worker: invariant preserved");
 	VERIF_ASSERT(G_calls == (SD(in_latest, in_cur) == 1 ? 1 : 0), "worker: re-queues itself iff a later target is outstanding");
-	VERIF_ASSERT(G_os_locks_held == 0, "worker: lock released");
-	VERIF_COVER(G_calls == 1); VERIF_COVER(G_calls == 0 && W_issued && SD(W_id, CUR) < 0);
-	VERIF_COVER(W_issued && SD(W_id, CUR) == 0);
+	VERIF_COVER(G_calls == 1); VERIF_COVER(G_calls == 0 && W_issued && SD(W_id, U_cur) < 0);
+	VERIF_COVER(W_issued && SD(W_id, U_cur) == 0);
 }
 
 /* O3: poll_state: true iff complete; never early; state untouched */
@@ -182,17 +226,17 @@ void h_poll_state(void)
 	struct urcu_gp_poll_state h;
 	bool r;
 	setup();
-	VERIF_REQUIRE(W_issued);
-	h.grace_period_id = W_id;
-	G_now++;
+	VERIF_REQUIRE(in_w_issued & 1);
+	G_role = 0;
+	h.grace_period_id = in_w_id;
 	r = poll_state_synchronize_rcu(h);
+	COMMON_POST("poll_state");
 	VERIF_ASSERT(!r || W_safe, "poll_state: true only if a callback queued at/after the handle's issue has completed");
-	VERIF_ASSERT(r || ACTIVE, "poll_state: false only while a worker callback is pending (no stuck handle)");
-	VERIF_ASSERT(r == (SD(W_id, CUR) < 0), "poll_state: result = signed comparison with current");
-	VERIF_ASSERT(CUR == in_cur && LATEST == in_latest && ACTIVE == (bool)(in_active & 1) && G_calls == 0, "poll_state: read-only");
-	VERIF_ASSERT(INV(), "poll_state: invariant preserved");
-	VERIF_ASSERT(G_os_locks_held == 0, "poll_state: lock released");
-	VERIF_COVER(r); VERIF_COVER(!r); VERIF_COVER(r && W_id > CUR /* wrapped */);
+	VERIF_ASSERT(r || U_active, "poll_state: false only while a worker callback is pending (no stuck handle)");
+	VERIF_ASSERT(r == (SD(W_id, U_cur) < 0), "poll_state: result = signed comparison with current");
+	VERIF_ASSERT(U_cur == in_cur && U_latest == in_latest && U_active == (in_active & 1) && G_calls == 0, "poll_state: read-only");
+	VERIF_ASSERT(U_inv, "poll_state: invariant preserved");
+	VERIF_COVER(r); VERIF_COVER(!r); VERIF_COVER(r && W_id > U_cur /* wrapped */);
 }
 
 /* O4: monotonicity: once complete, stays complete across any step */
@@ -200,18 +244,16 @@ void h_monotone(void)
 {
 	unsigned step;
 	setup();
-	VERIF_REQUIRE(W_issued && SD(W_id, CUR) < 0);
-
+	VERIF_REQUIRE((in_w_issued & 1) && SD(in_w_id, in_cur) < 0);
 	VIN(unsigned, in_step); step = in_step;
-	G_now++;
 	if (step == 0) {
+		G_role = 0;
 		(void) start_poll_synchronize_rcu();
 	} else {
-		VERIF_REQUIRE(G_pending);
-		G_pending = 0;
+		G_role = 1;
 		urcu_poll_worker_cb(&poll_worker_gp_state.rcu_head);
 	}
-	VERIF_ASSERT(SD(W_id, CUR) < 0, "once true, poll_state stays true");
+	VERIF_ASSERT(U_taken == 1 && SD(W_id, U_cur) < 0, "once true, poll_state stays true");
 	VERIF_COVER(step == 0); VERIF_COVER(step != 0);
 }
 
